@@ -1937,6 +1937,11 @@ func (comp *Compiler) makeEnumeration(
 
 func (c *Compiler) identityValues(cfgNode, node parse.Node, ident parse.Node, rt []*schema.Identity) []*schema.Identity {
 	strp := cfgNode.GetNodeModulename(cfgNode.Root()) + ":"
+	if ur := cfgNode.UsesRoot(); ur != nil {
+		// A node written in a submodule is a node of the module the
+		// submodule belongs to
+		strp = c.owningModule(ur).Name() + ":"
+	}
 
 	for _, id := range ident.ChildrenByType(parse.NodeIdentity) {
 		nm := c.owningModule(id.Root()).Name() + ":" + id.Name()
